@@ -489,7 +489,7 @@ func genSignCase(t *rapid.T) *SignCase {
 	c.Formats = []string{sc.Format}
 	sc.Callback = rapid.IntRange(0, 3).Draw(t, "callback") == 0
 	if sc.Format == "apk" {
-		sc.Key = rapid.SampledFrom([]string{"rsa-a", "rsa-b"}).Draw(t, "key")
+		sc.Key = rapid.SampledFrom([]string{"rsa-a", "rsa-b", "rsa-4096"}).Draw(t, "key")
 		sc.KeyEnc = rapid.SampledFrom([]string{"pkcs1", "pkcs8", "pkcs1.enc"}).Draw(t, "enc")
 		if rapid.Bool().Draw(t, "keyname?") {
 			sc.APKKeyName = rapid.SampledFrom([]string{"origin", "alpine-devel@lists.alpinelinux.org-4a6a0840.rsa.pub", "my key"}).Draw(t, "keyname")
